@@ -641,6 +641,10 @@ size_t rtosc_message_ring_length(ring_t *ring)
                 i |= (deref(pos++,ring) << 16);
                 i |= (deref(pos++,ring) << 8);
                 i |= (deref(pos++,ring));
+                //the blob has to end inside the buffer (and pos must not wrap)
+                if(i > ring[0].len+ring[1].len ||
+                        pos > ring[0].len+ring[1].len-i)
+                    return 0;
                 pos += i;
                 if((pos-aligned_pos)%4)
                     pos += 4-(pos-aligned_pos)%4;
